@@ -2,6 +2,7 @@
 # Builds the hand-written Coq library (full .vo build) and the extracted OCaml runner, offline.
 # Idempotent: a no-op when everything is up to date.
 set -e
+mkdir -p "$(dirname "$0")/build"
 cd "$(dirname "$0")/coq"
 export PATH=/usr/bin:/usr/local/bin:$PATH
 if [ ! -f Makefile ] || [ _CoqProject -nt Makefile ]; then
